@@ -477,6 +477,13 @@ pub fn c04(cfg: &Config, tr: &Trace, an: &Analysis, out: &mut Vec<Violation>) {
             Anomaly::EscapedPanic(_) | Anomaly::PrefixDivergence(_) => {}
         }
     }
+    if tr.log.iter().any(|l| l.kind == LogKind::ParserPolledAfterEnd) {
+        out.push(v(
+            "C04",
+            "parser-polled-after-end",
+            "the parser stream was polled again after it had ended (a non-fused stream may block or panic there)".into(),
+        ));
+    }
     if !tr.ended {
         return;
     }
@@ -655,7 +662,7 @@ fn scen_log_indices(tr: &Trace, sc: &ScenObs) -> Vec<usize> {
             }
             LogKind::Exit { key, inv, .. } => cur_keys.contains_key(&(key.clone(), *inv)),
             LogKind::AfterReason { key, .. } => own.contains(key.as_str()),
-            LogKind::Emit { .. } | LogKind::ParserDeliver(_) => false,
+            LogKind::Emit { .. } | LogKind::ParserDeliver(_) | LogKind::ParserPolledAfterEnd => false,
         };
         if mine {
             out.push(i);
